@@ -21,7 +21,7 @@ import (
 	"verif/internal/model"
 )
 
-const rule = "cases: pairs (A, B) of identities; A from a model encoding of every permitted supported key-type pair (NULL/KEY certificate, 0-40 excess certificate bytes, padding random/zero/0xff/repeating), obtained through ReadDestination, ReadRouterIdentity, ReadRouterInfo and the constructors; B = A with one byte changed at any offset of the consumed bytes (kept when B still parses completely), a re-parse of A, or an independent identity. Oracle: Hash/IdentHash = SHA-256(model bytes) (crypto/sha256); Base32Address = own bit-level base32 of the hash, lower case, unpadded, 52 characters + .b32.i2p (60); Base64 decodes with the own base64 to the bytes; Equals/Equal <=> bytes equal; different bytes => different hash and address. Non-trivial: pair differs in padding, certificate payload or key bytes (B parsed); distinct by (A bytes, B bytes)."
+const rule = "cases: pairs (A, B) of identities; A from a model encoding of every permitted supported key-type pair (NULL/KEY certificate, 0-40 excess certificate bytes, padding random/zero/0xff/repeating), obtained through ReadDestination, ReadRouterIdentity, ReadRouterInfo and the constructors; after A has been hashed and serialised once, a padding byte changed in place through the exported field, and the signing key replaced on a struct copy (hash, address, base64, Equals must follow the current bytes); B = A with one byte changed at any offset of the consumed bytes (kept when B still parses completely), a re-parse of A, or an independent identity. Oracle: Hash/IdentHash = SHA-256(model bytes) (crypto/sha256); Base32Address = own bit-level base32 of the hash, lower case, unpadded, 52 characters + .b32.i2p (60); Base64 decodes with the own base64 to the bytes; Equals/Equal <=> bytes equal; different bytes => different hash and address. Non-trivial: pair differs in padding, certificate payload or key bytes (B parsed); distinct by (A bytes, B bytes)."
 
 func TestMain(m *testing.M) { ev.Main(m, "C07", rule) }
 
@@ -164,6 +164,9 @@ func check(c Case, r *ev.Rec) error {
 			return fmt.Errorf("RouterIdentity.Equal is false for the same identity bytes parsed standalone / from a longer buffer / from a RouterInfo")
 		}
 	}
+	if err := afterUse(c, idA, encA, r); err != nil {
+		return err
+	}
 	// B
 	var encB []byte
 	var idB model.Ident
@@ -221,6 +224,97 @@ func check(c Case, r *ev.Rec) error {
 	if !same {
 		r.NonTrivial(c, encA, encB)
 	}
+	return nil
+}
+
+// afterUse: hash, address and equality follow the identity's current bytes, not
+// what the value was when it was first serialised or hashed. The exported fields
+// of KeysAndCert are changed after the value has been used once - a padding byte
+// in place, and the signing key on a struct copy (what a key-rotation or blinding
+// helper does) - and everything is compared with SHA-256 of the bytes the model
+// gives for the changed fields.
+func afterUse(c Case, idA model.Ident, encA []byte, r *ev.Rec) error {
+	warm := func(d *destination.Destination) {
+		d.Hash()
+		d.Bytes()
+		d.Base32Address()
+		d.Base64()
+	}
+	expect := func(what string, d *destination.Destination, want []byte) error {
+		sum := sha256.Sum256(want)
+		b, err := d.Bytes()
+		if err != nil || !bytes.Equal(b, want) {
+			return fmt.Errorf("%s: Bytes() does not reflect the change (err %v)", what, err)
+		}
+		if h, err := d.Hash(); err != nil || h != sum {
+			return fmt.Errorf("%s: Hash() = %x (%v), SHA-256 of the identity's bytes is now %x", what, h, err, sum)
+		}
+		if a, err := d.Base32Address(); err != nil || a != model.Base32(sum[:])+".b32.i2p" {
+			return fmt.Errorf("%s: Base32Address() = %q (%v) does not follow the identity's bytes", what, a, err)
+		}
+		if b64, err := d.Base64(); err != nil || b64 != model.Base64(want) {
+			return fmt.Errorf("%s: Base64() does not follow the identity's bytes (%v)", what, err)
+		}
+		fresh, _, err := destination.ReadDestination(append([]byte{}, want...))
+		if err != nil {
+			return nil // the changed bytes are not an accepted identity; nothing to compare with
+		}
+		if !d.Equals(&fresh) || !fresh.Equals(d) {
+			return fmt.Errorf("%s: Equals is false for an identity with identical serialisation parsed afresh", what)
+		}
+		orig, _, _ := destination.ReadDestination(append([]byte{}, encA...))
+		if d.Equals(&orig) || orig.Equals(d) {
+			return fmt.Errorf("%s: Equals is true although the serialisations differ", what)
+		}
+		return nil
+	}
+	padLen := 384 - len(idA.Enc) - len(idA.Sig)
+	if padLen > 0 {
+		d, _, err := destination.ReadDestination(append([]byte{}, encA...))
+		if err != nil {
+			return nil
+		}
+		warm(&d)
+		if len(d.Padding) != padLen {
+			return fmt.Errorf("Padding field has %d bytes, the layout leaves %d", len(d.Padding), padLen)
+		}
+		i := c.Pos % padLen
+		x := byte(c.Xor%255 + 1)
+		d.Padding[i] ^= x
+		want := append([]byte{}, encA...)
+		want[len(idA.Enc)+i] ^= x
+		if err := expect("padding byte changed after first use", &d, want); err != nil {
+			return err
+		}
+		r.Class("after-use:padding")
+	}
+	// signing key replaced on a struct copy of a used value
+	other := c.A
+	other.KeySeed ^= 0x5a5a
+	idO, _ := other.Build()
+	encO := idO.Encode()
+	if bytes.Equal(idO.Sig, idA.Sig) {
+		return nil
+	}
+	d, _, err := destination.ReadDestination(append([]byte{}, encA...))
+	dO, _, errO := destination.ReadDestination(append([]byte{}, encO...))
+	if err != nil || errO != nil {
+		return nil
+	}
+	warm(&d)
+	kac := *d.KeysAndCert
+	kac.SigningPublic = dO.SigningPublic
+	derived := destination.Destination{KeysAndCert: &kac}
+	want := append([]byte{}, encA...)
+	copy(want[384-len(idA.Sig):384], idO.Sig)
+	if err := expect("signing key replaced on a copy of a used value", &derived, want); err != nil {
+		return err
+	}
+	// the original is unaffected
+	if h, _ := d.Hash(); h != sha256.Sum256(encA) {
+		return fmt.Errorf("the original's hash changed when a struct copy was modified")
+	}
+	r.Class("after-use:signing-key")
 	return nil
 }
 
